@@ -30,6 +30,12 @@ CLAIMS['C07'] = dict(cat='model_checking', ref='DESIGN.md §4 C07',
     note='CBMC partial-order concurrency encoding (sound here: all shared state is scalar); SC only - weak-memory behaviours are outside the claim; spinning executions are cut as equivalent to later arrival; '
          'one operation per thread; counterexamples are CBMC traces (thread schedules cannot be replayed natively).')
 
+CLAIMS['C01'] = dict(cat='model_checking', ref='DESIGN.md §4 C01',
+    text='SAT decides the map-oracle assertions (results of insert/remove/get/empty, value bytes, untouched other entries) for ALL 2^64 keys of one symbolic operation on each tree of a catalogue '
+         'of concrete shapes (every way a key can leave the tree), and for two/three fully symbolic keys from the empty index. Bounded: prelude + one symbolic operation, not arbitrary histories.',
+    note='trusted: translator (validated per run against the g++ build on solver-generated vectors), CBMC memory model, zero-initialised objects, allocation never fails here (C08 covers faults). '
+         'Counterexamples are replayed on a native g++ build of the real code before being reported.')
+
 NOT_APPLICABLE = {
 }
 
